@@ -186,9 +186,16 @@ def gen_kv_trace(rng, length=14, exhaustive_seq=None):
         keys = [9, 7] + rng.sample(list(range(9101, 9113)), 3)
     ops = []
 
+    # the record's Tick field is data for the DB (it never decides whether a write is accepted): besides small values, a third of
+    # the traces draw it from values far apart (around powers of two, beyond 2^32, near 2^63) so that a rule keyed on the
+    # distance between the stored and the presented Tick shows (seed C13-r5-m1)
+    wide = rng.random() < 0.35
+    KVTICKS = [0, 1, 2, 3, 255, 256, 1023, 1025, 4095, 4096, 4097, 4098, 8193, 65536, 100000, 2 ** 32 + 1, 2 ** 40, 2 ** 63 - 1]
+
     def kvop():
         k = rng.choice(keys)
-        return ("K", k, rng.choice([1, 2, 3]), rng.choice([0, 1, 2]), rng.randint(0, 3), rng.choice([0, 1, 2]), rng.random() < 0.25)
+        t = rng.choice(KVTICKS) if wide else rng.randint(0, 3)
+        return ("K", k, rng.choice([1, 2, 3]), rng.choice([0, 1, 2]), t, rng.choice([0, 1, 2]), rng.random() < 0.25)
     seq = exhaustive_seq if exhaustive_seq is not None else None
     n = length if seq is None else len(seq)
     fork_at = rng.randrange(n + 1)
